@@ -12,11 +12,11 @@ pub fn run(c: &[S]) -> Option<S> {
     Some(match op {
         "macro" => {
             let sym = a[0].as_atom().to_string();
-            let x = d_bdd(&a[1]);
+            let x = d_bdd_fresh(&a[1]);
             if sym == "not" {
                 return Some(e_bdd(&bdd!(!x)));
             }
-            let y = d_bdd(&a[2]);
+            let y = d_bdd_fresh(&a[2]);
             let r = match sym.as_str() {
                 "and" => bdd!(x & y),
                 "or" => bdd!(x | y),
@@ -29,8 +29,8 @@ pub fn run(c: &[S]) -> Option<S> {
         }
         "macro_eq" => {
             let form = a[0].as_atom().to_string();
-            let x = d_bdd(&a[1]);
-            let y = d_bdd(&a[2]);
+            let x = d_bdd_fresh(&a[1]);
+            let y = d_bdd_fresh(&a[2]);
             // the `$vars:ident` rules need a variable set of the operands' width; Bdd idents ignore it
             let vs = BddVariableSet::new_anonymous(x.num_vars());
             let (xx, yy) = (x.clone(), y.clone());
